@@ -2,4 +2,4 @@
 # selftest/fulltests.sh [repo]: run the whole suite from inside tests/ (where the fixtures resolve), ignoring the
 # image-comparison display tests; prints failing test ids and the summary line.
 R="${1:-/repo}"
-cd "$R/tests" && PYTHONDONTWRITEBYTECODE=1 /venv/bin/python -m pytest -q -p no:cacheprovider --no-cov --ignore=test_display.py 2>&1 | grep -E "^(FAILED|ERROR)| passed| failed" | tail -15
+cd "$R/tests" && OMP_NUM_THREADS=1 OPENBLAS_NUM_THREADS=1 MKL_NUM_THREADS=1 PYTHONPATH="$R" PYTHONDONTWRITEBYTECODE=1 /venv/bin/python -m pytest -q -p no:cacheprovider --no-cov --ignore=test_display.py 2>&1 | grep -E "^(FAILED|ERROR)| passed| failed" | tail -15
